@@ -558,8 +558,25 @@ def rule_P8(ctx) -> None:
             return s
         return {ast.unparse(t)}
 
-    a = preds(models.func("is_map"))
-    b = preds(models.func("MapEntryCompiler.__post_init__"))
+    from ..absint import _known_units
+    known = _known_units().get(models.rel, set())
+
+    def with_helpers(fn, depth: int = 0):
+        """fn and the module-level helpers it calls that are not units known to the rules (a shared recogniser)"""
+        out = [fn]
+        if depth >= 2:
+            return out
+        for c in ast.walk(fn):
+            if isinstance(c, ast.Call) and isinstance(c.func, ast.Name) and c.func.id not in known and models.has(c.func.id):
+                try:
+                    h = models.func(c.func.id)
+                except AnalysisError:
+                    continue
+                out += with_helpers(h, depth + 1)
+        return out
+
+    a = set().union(*[preds(f) for f in with_helpers(models.func("is_map"))])
+    b = set().union(*[preds(f) for f in with_helpers(models.func("MapEntryCompiler.__post_init__"))])
     if not a or not b:
         ctx.inconclusive("P8", "is_map~MapEntryCompiler", "nested-entry predicates not recognised", models.loc(models.func("is_map")))
     elif a == b:
